@@ -105,6 +105,10 @@ def scn_mask_array(c, layout):
     fv = c.fresh_int('fv')
     cases = [('float', 'floatnan', FLOAT64, {'units': 'degC'}), ('int + _FillValue', 'int', INT32, {'_FillValue': fv, 'long_name': 'flag'}),
              ('int + missing_value', 'int', INT64, {'missing_value': fv}), ('int without fill', 'int', INT32, {'long_name': 'count'})]
+    from pyvc.lib.numpy_ import INT16
+    from pyvc.lib.floats import SFloat as _SF
+    wide = _SF.fresh('wide_fill')      # a fill value stored with a wider type than the variable (a double on a short): any double, NaN included
+    cases.append(('int16 + missing_value stored as a double', 'int', INT16, {'missing_value': wide}))
     for label, kind, dt, attrs in cases:
         da = _da(c, 'v', layout, sizes, kind, attrs, dtype=dt)
         da.variable.encoding['chunks'] = 'original'
@@ -121,6 +125,11 @@ def scn_mask_array(c, layout):
         if kind == 'floatnan':
             c.check(f'{label}: a selected entry keeps its value', s_implies(m, got.same_bits(was)))
             c.check(f'{label}: an entry outside the selection is NaN', s_implies(s_not(m), got.is_nan()))
+        elif 'stored as a double' in label:
+            from pyvc.lib.numpy_ import to_float
+            c.check(f'{label}: a selected entry keeps its value', s_implies(m, got.same_bits(to_float(was)) if hasattr(got, 'same_bits') else s_eq(got, was)))
+            c.check(f'{label}: an entry outside the selection holds the declared fill value itself (a missing value when the files are decoded), not a '
+                    'number of the narrow type', s_implies(s_not(m), got.same_bits(wide) if hasattr(got, 'same_bits') else False))
         else:
             c.check(f'{label}: a selected entry keeps its value', s_implies(m, s_eq(got, was)))
             c.check(f'{label}: an entry outside the selection holds the declared fill value', s_implies(s_not(m), s_eq(got, fv)))
